@@ -27,7 +27,10 @@ BOUNDS = dict(vars(B), kinds=KINDS, meaning="histories of <= HIST operations ove
               "reset} with symbolic integer data and a context chosen per value from {none, {a:1}, "
               "{a:2,b:{c:3}}}; VarianceMeanCount on <= VN values from -2..2; DSum on <= DN values from "
               "a table of mixed-magnitude doubles and, separately, for every required precision "
-              "28..40 through a contract stub of decimal.Context.add")
+              "28..40 through a contract stub of decimal.Context.add; engine R: Sum, Mean, "
+              "VarianceMeanCount (corrected and not), Vectorize(Sum), Vectorize(VarianceMeanCount) "
+              "on symbolic REAL data, every history over {fill, compute, reset} of <= 4 (thorough 6) "
+              "operations containing a compute")
 FUNCTIONS = ["lena.flow.elements.Count.fill/compute/reset", "lena.math.elements.Sum", "DSum", "Mean",
              "VarianceMeanCount", "Vectorize", "lena.flow.elements.StoreFilled",
              "lena.flow.group_by.GroupBy.fill/compute/reset", "lena.structures.histogram.Histogram"]
@@ -173,12 +176,20 @@ def _sorted_groups(groups):
     return sorted(groups, key=_gkey)
 
 
+def _first(ops, cs):
+    """Shard code of the first operation: fill with context kind 0 / 1 / 2,
+    compute, reset (0..4)."""
+    if ops[0] <= 0:
+        return 0 if cs[0] <= 0 else (1 if cs[0] == 1 else 2)
+    return 3 if ops[0] == 1 else 4
+
+
 def check_history(kind: int, ops: List[int], xs: List[int], cs: List[int]) -> bool:
     """
     pre: 0 <= kind <= 9
     pre: 1 <= len(ops) <= B.HIST
     pre: len(xs) == len(ops) and len(cs) == len(ops)
-    pre: h.in_shard(kind + 10 * (len(ops) % 2))
+    pre: h.in_shard(kind + 10 * (len(ops) % 2) + 20 * _first(ops, cs))
     post: _
     """
     kind = h.concrete(kind, 0, 9)
@@ -193,6 +204,11 @@ def check_history(kind: int, ops: List[int], xs: List[int], cs: List[int]) -> bo
                 if kind == 5:
                     # GroupBy groups by context only: data from {0, 1}
                     x = 1 if x > 0 else 0
+                if kind == 2:
+                    # Mean divides: symbolic int -> float quotients leave the
+                    # solver without an answer (214 paths in 900 s); data from
+                    # {-1, 0, 1} here, every real number in real_history
+                    x = -1 if x < 0 else (1 if x > 0 else 0)
                 el.fill(val(mkdata(kind, x), c))
                 filled.append((x, c))
             elif op == 1:
@@ -311,8 +327,21 @@ def check_dsum_precision(need: int) -> bool:
                 and stub.prec == max(28, need))
 
 
+# ---------------------------------------------------------------- engine R
+# Sum / Mean / VarianceMeanCount / Vectorize over symbolic reals, every
+# history over {fill, compute, reset} up to RHIST operations (harness/c09_real.py)
+
+def real_history(budget):
+    from harness import c09_real as cr
+    hs = cr.histories(6 if h.TIER == "thorough" else 4)
+    cases = [(k, ops, wc) for k in cr.KINDS for wc in (False, True) for ops in hs]
+    mine = [c for i, c in enumerate(cases) if i % h.SHARD_N == h.SHARD_I]
+    return cr.run_cases("history", mine, budget)
+
+
 CONDITIONS = [
-    dict(fn="check_history", shards=(20, 20), budget=(90, 1500),
+    dict(fn="real_history", custom=True, shards=(2, 8), budget=(60, 900)),
+    dict(fn="check_history", shards=(100, 100), budget=(200, 1200),
          smoke=["check_history(0, [0, 0, 1, 2], [5, 6, 0, 0], [1, 2, 0, 0])",
                 "check_history(2, [0, 1, 2, 1], [5, 6, 0, 0], [1, 2, 0, 0])",
                 "check_history(5, [0, 0, 0, 1], [5, 6, 7, 0], [1, 2, 1, 0])",
